@@ -250,6 +250,52 @@ Proof.
   - apply delete_denied_general; try assumption. exact (disjoint_subset _ _ _ Hd S2).
 Qed.
 
+(* ------------------------------------------------------------------ limited-remit roles *)
+Lemma limited_roles_receive_nothing :
+  disjoint (HP :: LIMITED_ROLES) (hp_writers (ac_modify builtin)) = true
+  /\ disjoint (HP :: LIMITED_ROLES) (hp_writers (ac_delete builtin)) = true.
+Proof. split; vm_compute; reflexivity. Qed.
+
+Lemma limited_user_disjoint i l :
+  limited_user i = true -> subset l (hp_groups nesting) = true -> disjoint (HP :: LIMITED_ROLES) l = true ->
+  disjoint (i_memberof i) l = true.
+Proof.
+  intros Hl Hs Hd. apply disjoint_iff. intros x Hx Hxl.
+  unfold limited_user in Hl. rewrite forallb_forall in Hl. specialize (Hl x Hx).
+  rewrite subset_In in Hs. specialize (Hs x Hxl). apply mem_In in Hs. rewrite Hs in Hl.
+  cbn [negb orb] in Hl. rewrite disjoint_iff in Hd. apply (Hd x); [|exact Hxl].
+  apply orb_true_iff in Hl as [Hl|Hl].
+  - apply N.eqb_eq in Hl. subst x. left. reflexivity.
+  - right. apply mem_In. exact Hl.
+Qed.
+
+Theorem limited_denied i e :
+  subject_limited i e = true ->
+  (forall ml, modify_entry i builtin e ml = false) /\ delete_entry i builtin e = false.
+Proof.
+  intros Hs. unfold subject_limited in Hs.
+  repeat (apply andb_true_iff in Hs as [Hs ?]).
+  match goal with H : negb (manager_ok i e) = true |- _ => apply negb_true_iff in H; rename H into Hm end.
+  match goal with H : negb (is_self i e) = true |- _ => apply negb_true_iff in H; rename H into Hself end.
+  match goal with H : hp_target e = true |- _ => rename H into Hhp end.
+  match goal with H : limited_user i = true |- _ => rename H into Hl end.
+  assert (Ho : i_origin i = OUser) by (destruct (i_origin i); try discriminate; reflexivity).
+  pose proof builtin_data_safe as Hsafe. unfold data_safe in Hsafe. apply andb_true_iff in Hsafe as [S1 S2].
+  destruct limited_roles_receive_nothing as [D1 D2].
+  split.
+  - intros ml. apply modify_denied_general; try assumption. exact (limited_user_disjoint i _ Hl S1 D1).
+  - apply delete_denied_general; try assumption. exact (limited_user_disjoint i _ Hl S2 D2).
+Qed.
+
+Theorem protected_denied i e :
+  closedb nesting (i_memberof i) = true -> protected_pair i e = true ->
+  (forall ml, modify_entry i builtin e ml = false) /\ delete_entry i builtin e = false.
+Proof.
+  intros Hc Hp. unfold protected_pair in Hp. apply orb_true_iff in Hp as [Hp|Hp].
+  - exact (builtin_hp_protected i e Hc Hp).
+  - exact (limited_denied i e Hp).
+Qed.
+
 (* ------------------------------------------------------------------ the delegation premise *)
 (* W x = the memberof the server maintains for entity x.  If every entry manager of e is
    high-privilege, a user outside idm_high_privilege is not an entry manager of e *)
@@ -339,21 +385,21 @@ Proof.
     apply acps_eqb_eq in H1. apply (list_eqb_eq pair_eqb pair_eqb_eq) in H2. subst.
     exact builtin_data_safe.
   - reflexivity.
-  - intros H. destruct (subject i e) eqn:Hs; [|reflexivity].
+  - intros H. destruct (protected_pair i e) eqn:Hs; [|reflexivity].
     repeat (apply andb_true_iff in H as [H ?]).
     match goal with X : Bool.eqb (delete_entry i builtin e) del = true |- _ => apply eqb_prop in X; rename X into Hdel end.
     match goal with X : check_from _ _ _ _ = true |- _ => rename X into Hck end.
     match goal with X : forallb _ allowed = true |- _ => rename X into Hrange end.
-    destruct (builtin_hp_protected i e H Hs) as [Hm Hd].
+    destruct (protected_denied i e H Hs) as [Hm Hd].
     rewrite Hd in Hdel. subst del. rewrite andb_true_r.
     destruct allowed as [|k rest]; [reflexivity|]. exfalso.
     cbn [forallb] in Hrange. apply andb_true_iff in Hrange as [Hk _]. apply N.ltb_lt in Hk.
     assert (E : mem k (k :: rest) = false).
     { apply (check_from_all_false _ _ _ 0 Hck (fun r _ => Hm r) k); lia. }
     cbn [mem existsb] in E. rewrite N.eqb_refl in E. discriminate.
-  - intros H. destruct (subject i e) eqn:Hs; [|reflexivity].
+  - intros H. destruct (protected_pair i e) eqn:Hs; [|reflexivity].
     apply andb_true_iff in H as [Hc H].
-    destruct (builtin_hp_protected i e Hc Hs) as [Hm _]. rewrite (Hm ml) in H.
+    destruct (protected_denied i e Hc Hs) as [Hm _]. rewrite (Hm ml) in H.
     apply andb_true_iff in H as [H1 H2]. subst unchanged. destruct res; try discriminate; reflexivity.
 Qed.
 
